@@ -203,7 +203,7 @@ isal_deflate_finish_base(struct isal_zstream *stream)
                 write_bits(&state->bitbuf, code, code_len);
                 state->has_eob = 1;
 
-                if (stream->end_of_stream == 1)
+                if (stream->end_of_stream)
                         state->state = ZSTATE_TRL;
                 else
                         state->state = ZSTATE_SYNC_FLUSH;
